@@ -273,6 +273,56 @@ def rule_orders(ctx, rep):
     pat.require(n >= 72, "only %d memory-order witnesses" % n)
 
 
+def rule_orders_compat(ctx, rep, rid="C20.W10", only=None):
+    """Callers compiled below C11 (-std=gnu99/c99/gnu89: the README asks for `at least C99`) do not get the __atomic builtins: uatomic_load /
+    uatomic_store (and everything built on them: rcu_dereference, rcu_assign_pointer, CMM_LOAD/STORE_SHARED users with an order) are a volatile
+    access bracketed by the x86 fence-emulation hooks.  Decided on the same witnesses compiled with -std=gnu99: one volatile access of the
+    operand's width; a release / seq_cst store is preceded by (at least) a compiler barrier; a seq_cst store is followed by a full fence
+    (store->load order on x86-TSO); an acquire / consume / seq_cst load is followed by (at least) a compiler barrier; the _FENCE variants are
+    followed by a full fence."""
+    from .. import core as _core
+    c2 = ctx if ctx.facts.config_tag == "pre-c11" else _core.get_ctx(ctx.repo, ctx.tier, ("-std=gnu99",), "pre-c11")
+    c2.facts.ensure()
+    m = W(c2)
+    n = 0
+    for f in m.defined():
+        mt = re.match(r"w_(load|store)_(relaxed|consume|acquire|release|seq_cst|seq_cst_fence)__(\w\w)$", f.name)
+        if not mt:
+            continue
+        kind, mo, t = mt.groups()
+        if only is not None and not only(kind, mo):
+            continue
+        rep.touch(f)
+        n += 1
+        effs = effects(f)
+        acc = [e for e in effs if e.kind == kind and on_ptr(f, e)]
+        tag = "pre-c11." + f.name[2:]
+        if len(f.blocks) != 1 or len(acc) != 1:
+            rep.unk(rid, tag, "%d accesses to *addr in %d blocks: not the single bracketed access this rule reads" % (len(acc), len(f.blocks)))
+            continue
+        a = acc[0]
+        k = effs.index(a)
+        before, after = effs[:k], effs[k + 1:]
+        okw = a.bits == BITS[t] and (a.inst.d.get("vol") or a.order != "na")
+        rep.check(okw, rid, tag + ".volatile-access", "one volatile %s of %d bits" % (kind, BITS[t]), "the access is %s of %d bits: the compiler may cache, tear or drop it" % ("plain" if not a.inst.d.get("vol") else "volatile", a.bits), [f.name])
+        cb = lambda es: any(e.kind == "fence" and (e.compiler or e.full) for e in es)
+        fb = lambda es: any((e.kind == "fence" and e.full) or (e.is_rmw() and e.full) for e in es)
+        if kind == "store":
+            if mo != "relaxed":
+                rep.check(cb(before), rid, tag + ".barrier-before", "compiler barrier before the %s store" % mo,
+                          "no compiler barrier in front of the CMM_%s store: the compiler may sink earlier stores (the initialisation of a node about to be published) below it" % mo.upper(), [a.inst.where()])
+            if mo in ("seq_cst", "seq_cst_fence"):
+                rep.check(fb(after), rid, tag + ".full-fence-after", "full fence after the %s store" % mo,
+                          "no full fence after the CMM_%s store: on x86-TSO the store may still sit in the store buffer when later loads are satisfied (store->load reordering)" % mo.upper(), [a.inst.where()])
+        else:
+            if mo != "relaxed":
+                rep.check(cb(after), rid, tag + ".barrier-after", "compiler barrier after the %s load" % mo,
+                          "no compiler barrier after the CMM_%s load: the compiler may hoist later accesses above it" % mo.upper(), [a.inst.where()])
+            if mo == "seq_cst_fence":
+                rep.check(fb(after), rid, tag + ".full-fence-after", "full fence after the seq_cst_fence load", "CMM_SEQ_CST_FENCE load without its fence", [a.inst.where()])
+    pat.require(n >= (72 if only is None else 8), "only %d pre-C11 memory-order witnesses" % n)
+
+
 NEG_SRC = r'''
 #include <urcu/uatomic.h>
 struct s3 { char c[3]; };
@@ -329,6 +379,7 @@ RULES = [
     ("C20.ops", rule_ops),
     ("C20.W5", rule_orders),
     ("C20.W6", rule_negative),
+    ("C20.W10", rule_orders_compat),
 ]
 CONFIG_RULES = {"atomic-builtins": ("C20.ops", "C20.W5", "C20.W6", "C20.W8")}
 FLOORS = {}
